@@ -6,7 +6,8 @@ git -C /repo worktree add -q --detach $wt HEAD || exit 2
 trap "git -C /repo worktree remove --force $wt" EXIT
 python3 - $id $wt <<'PY'
 import json,sys
-for l in open('/verif/mutation/mutants.ndjson'):
+import itertools
+for l in itertools.chain(open('/verif/mutation/mutants.ndjson'), open('/verif/mutation/mutants2.ndjson')):
     m=json.loads(l)
     if m['id']==sys.argv[1]:
         p=sys.argv[2]+'/'+m['file']; s=open(p,'rb').read()
